@@ -95,6 +95,19 @@ CLAIMED["C02"] = dict(
     design="DESIGN.md section 6, C02",
 )
 
+CLAIMED["C18"] = dict(
+    text="Lean 4 theorems over a handler-by-handler model of XmlDiffFormatter (after two fix: commits it follows the script on a "
+    "private copy and resolves prefixed paths): for every script the documented action semantics accepts - whatever produced it, "
+    "any size - the formatter completes (no sibling lookup, attribute lookup or path lookup can fail) and returns at least one "
+    "entry per action (C18_total_of_strict, C18_entries). PARTIAL: that every differ script is accepted by the documented "
+    "semantics is proved for addressing and attribute preconditions (C04/C05) and checked per run for positions by the strict "
+    "replay. The model is tied to the code by unit U11 (formatter output compared on real differ scripts); the property itself "
+    "is decided on the real code through diff_trees/diff_texts with the formatter and through xmldiff -f old.",
+    note="Trusted: Lean kernel and standard axioms; model validated by U11 on every run; namespace-free documents in the model.",
+    technique="Lean 4 proof (totality under the strict semantics) + model/code differential correspondence + totality oracle",
+    design="DESIGN.md section 6, C18",
+)
+
 NOT_YET = {}
 
 
